@@ -177,6 +177,89 @@ Theorem c14_guard_unfaithful_refuted :
 Proof. exact guard_unfaithful_refuted. Qed.
 Print Assumptions c14_guard_unfaithful_refuted.
 
+(* ---- round 3: what the gate is told.  Model/GitStatus.v: [repo] (own status keys, .gitmodules entries (name, path),
+   repositories checked out below), [changed_files] (GetChangedFiles: own keys ++ path-prefixed keys of every checked-out
+   directory whose PATH .gitmodules lists; [by_name = true] is not the code), [reaches], [key_at], [command_with_writer]. ---- *)
+From Regal Require Import Model.GitStatus Proofs.GitStatus.
+
+(* every key of the own status of a repository reached through registered, checked-out submodules (a chain of submodule
+   PATHS ps, at any depth) is among the keys handed to the gate -- whatever NAMES the submodules carry *)
+Theorem c14_submodule_changes_listed :
+  forall r ps r'' k,
+  reaches r ps r'' -> In k (repo_own r'') -> In (key_at ps k) (changed_files false r).
+Proof. exact submodule_changes_listed. Qed.
+Print Assumptions c14_submodule_changes_listed.
+
+(* so a run the gate lets through touches no file that the superproject or ANY checked-out submodule reports not clean *)
+Theorem c14_guard_covers_submodules :
+  forall cwd root r modified deleted ps r'' k,
+  git_guard cwd (RepoAt root) (changed_files false r) modified deleted = GProceed ->
+  reaches r ps r'' -> In k (repo_own r'') ->
+  forall f, In f (modified ++ deleted) -> f <> pjoin [fp_abs cwd root; key_at ps k].
+Proof. exact guard_covers_submodules. Qed.
+Print Assumptions c14_guard_covers_submodules.
+
+(* listing the submodules by the key of their configuration section -- the NAME -- loses every submodule whose name is
+   not its path (git submodule add --name, git mv): witness policies/lib named shared-lib (class of seeded change C14-6) *)
+Theorem c14_submodule_changes_by_name_refuted :
+  exists r ps r'' k,
+    reaches r ps r'' /\ In k (repo_own r'')
+    /\ ~ In (key_at ps k) (changed_files true r)
+    /\ In (key_at ps k) (changed_files false r).
+Proof. exact submodule_changes_by_name_refuted. Qed.
+Print Assumptions c14_submodule_changes_by_name_refuted.
+
+Theorem c14_guard_by_name_refuted :
+  exists cwd root r modified deleted ps r'' k,
+    git_guard cwd (RepoAt root) (changed_files true r) modified deleted = GProceed
+    /\ reaches r ps r'' /\ In k (repo_own r'')
+    /\ In (pjoin [fp_abs cwd root; key_at ps k]) (modified ++ deleted)
+    /\ git_guard cwd (RepoAt root) (changed_files false r) modified deleted = GRefuse.
+Proof. exact guard_by_name_refuted. Qed.
+Print Assumptions c14_guard_by_name_refuted.
+
+(* WHEN the status is asked.  The files are read from [fs_read]; the gate and the commit work on the tree as it is after
+   the lint run, [fs_now] (somebody may have saved a file meanwhile); [status_of] is the status oracle.  The code asks it
+   about [fs_now]: a run that reaches the commit touches no file that the status of the tree it WRITES TO lists, and a run
+   that does not leaves that tree, the concurrent writer's work included, as it is. *)
+Theorem c14_status_at_commit_time :
+  forall (C : Type) (fl : flags) cwd rr (status_of : fsys C -> list str) roots (fs_read fs_now : fsys C) lr dl ml out fs',
+  fl_force fl = false -> fl_dry_run fl = false ->
+  command_with_writer false fl cwd rr status_of roots fs_read fs_now lr dl ml = (out, fs') ->
+  (out = OutDone \/ out = OutCommitFailed ->
+     exists p r root,
+       lr = LDone p r /\ rr = RepoAt root /\
+       forall f k, In f (pv_modified p ++ pv_deleted p) -> In k (status_of fs_now) ->
+                   f <> pjoin [fp_abs cwd root; k])
+  /\ (out <> OutDone -> out <> OutCommitFailed -> fs' = fs_now).
+Proof. exact status_at_commit_time. Qed.
+Print Assumptions c14_status_at_commit_time.
+
+(* with the status taken up front (before the files are read: class of seeded change C14-5) a file saved while the
+   command runs is replaced although the status of the tree written to lists it; the code refuses on the same input *)
+Theorem c14_status_taken_early_refuted :
+  exists fl cwd root (status_of : fsys str -> list str) roots fs_read fs_now lr dl ml,
+    fl_force fl = false /\ fl_dry_run fl = false
+    /\ (exists p r f k fs', lr = LDone p r
+          /\ command_with_writer true fl cwd (RepoAt root) status_of roots fs_read fs_now lr dl ml = (OutDone, fs')
+          /\ In f (pv_modified p ++ pv_deleted p) /\ In k (status_of fs_now)
+          /\ f = pjoin [fp_abs cwd root; k]
+          /\ aget (fs_files fs') f <> aget (fs_files fs_now) f)
+    /\ command_with_writer false fl cwd (RepoAt root) status_of roots fs_read fs_now lr dl ml = (OutGitRefused, fs_now).
+Proof. exact status_taken_early_refuted. Qed.
+Print Assumptions c14_status_taken_early_refuted.
+
+(* the touched path lies below the work tree AS SPELLED, the file it names (a symbolic link to a file elsewhere) does not:
+   the work tree is clean, the gate proceeds, the command writes through the link (open finding, round 3) *)
+Theorem c14_guard_link_leaves_worktree_refuted :
+  exists resolve cwd root status modified deleted f,
+    git_guard cwd (RepoAt root) status modified deleted = GProceed
+    /\ status = [] /\ In f (modified ++ deleted)
+    /\ str_has_prefix (resolve f) (resolve (fp_abs cwd root) ++ [SLASH]) = false
+    /\ str_has_prefix f (fp_abs cwd root ++ [SLASH]) = true.
+Proof. exact guard_link_leaves_worktree_refuted. Qed.
+Print Assumptions c14_guard_link_leaves_worktree_refuted.
+
 (* ---- the hypotheses are satisfiable by non-trivial values ---- *)
 From Regal Require Import Base.StrLit.
 From Coq Require Import String.
@@ -215,4 +298,21 @@ Example c14_faithful_nonvacuous :
   faithful Proofs.GitGuard.l_resolve [lit "/L/x"; lit "/L/y"] /\ Proofs.GitGuard.l_resolve (lit "/L/x") = lit "/T/x".
 Proof.
   split; [|reflexivity]. intros a b [<-|[<-|[]]] [<-|[<-|[]]]; vm_compute; intros H; try reflexivity; discriminate.
+Qed.
+
+(* [reaches] two levels deep through submodules whose names are not their paths, one moved (name = old path), one named;
+   an uninitialised submodule (registered, nothing checked out) next to them contributes nothing *)
+Example c14_submodules_nonvacuous :
+  let inner := Repo [lit "pol/t.rego"] [] [] in
+  let sub := Repo [lit "own.rego"] [(lit "core", lit "inner")] [(lit "inner", inner)] in
+  let top := Repo [] [(lit "old/place", lit "sub"); (lit "lib", lit "lib")] [(lit "sub", sub)] in
+  reaches top [lit "sub"; lit "inner"] inner
+  /\ changed_files false top = [lit "sub/own.rego"; lit "sub/inner/pol/t.rego"]
+  /\ changed_files true top = []
+  /\ git_guard (lit "/") (RepoAt (lit "/R")) (changed_files false top) [lit "/R/sub/inner/pol/t.rego"] [] = GRefuse.
+Proof.
+  cbv zeta. split.
+  - eapply reach_sub with (n := lit "old/place"); [left; reflexivity | left; reflexivity |].
+    eapply reach_sub with (n := lit "core"); [left; reflexivity | left; reflexivity | constructor].
+  - repeat split; vm_compute; reflexivity.
 Qed.
